@@ -241,6 +241,17 @@ class SetV:
         self.arr = arr
 
 
+class Poison:
+    """result of merging two values that cannot be merged (typically dead temporaries); any use is an error"""
+    __slots__ = ('msg',)
+
+    def __init__(self, msg):
+        self.msg = msg
+
+    def __repr__(self):
+        return 'Poison(%s)' % self.msg
+
+
 class Opaque:
     """value whose content is never inspected (handles, formatters, ...)"""
     __slots__ = ('tag', 'data')
@@ -270,6 +281,10 @@ def ite(g, a, b):
         return b
     if b is None:
         return a
+    if isinstance(a, Poison):
+        return a
+    if isinstance(b, Poison):
+        return b
     if is_int(a) and is_int(b):
         if isinstance(a, CI) and isinstance(b, CI) and a == b:
             return a
